@@ -397,6 +397,9 @@ func specInScope(stack []scope, n int, s scope) bool {
 //@   loop @"range usedFuncs" exit[C09,C16] every-imported-edge-of-this-caller-merged: forall(k, 0, len(usedFuncs), inList(get(p.usedFuncs, funcName), usedFuncs[k]))
 //@   loop @"range statementsTemp" invariant[C09,C16] every-function-kept-so-far-is-marked-as-defined: forall(k, 0, len(statements), isType(statements[k], "parser.FunctionDefinition") ==> has(definedFunctions, asType(statements[k], "parser.FunctionDefinition").name) && get(definedFunctions, asType(statements[k], "parser.FunctionDefinition").name))
 //@   loop @"range definedVariable.Variables()" invariant[C09,C16] every-function-kept-so-far-is-marked-as-defined: forall(k, 0, len(statements), isType(statements[k], "parser.FunctionDefinition") ==> has(definedFunctions, asType(statements[k], "parser.FunctionDefinition").name) && get(definedFunctions, asType(statements[k], "parser.FunctionDefinition").name))
+//@   loop @"range statementsTemp" invariant[C09] every-variable-marked-as-defined-is-defined-by-a-statement-that-is-kept: forallstr(s, has(definedVariables, s) && get(definedVariables, s) ==> exists(j, 0, len(statements), isType(statements[j], "parser.VariableDefinition") && exists(m, 0, len(asType(statements[j], "parser.VariableDefinition").variables), asType(statements[j], "parser.VariableDefinition").variables[m].name == s)))
+//@   loop @"range definedVariable.Variables()" invariant[C09] marked-variables-are-kept-ones-or-those-of-this-definition: forallstr(s, has(definedVariables, s) && get(definedVariables, s) ==> exists(j, 0, len(statements), isType(statements[j], "parser.VariableDefinition") && exists(m, 0, len(asType(statements[j], "parser.VariableDefinition").variables), asType(statements[j], "parser.VariableDefinition").variables[m].name == s)) || exists(m, 0, rangeindex + 1, definedVariable.variables[m].name == s))
+//@   loop @"range definedVariable.Variables()" invariant[C09] while-nothing-new-was-seen-every-variable-so-far-is-a-kept-one: exists ==> forall(q, 0, rangeindex + 1, exists(j, 0, len(statements), isType(statements[j], "parser.VariableDefinition") && exists(m, 0, len(asType(statements[j], "parser.VariableDefinition").variables), asType(statements[j], "parser.VariableDefinition").variables[m].name == definedVariable.variables[q].name)))
 //@   loop @"range statementsTemp" invariant[C09,C16] no-function-is-defined-twice-so-far: forall(i, 0, len(statements), forall(j, 0, i, isType(statements[i], "parser.FunctionDefinition") && isType(statements[j], "parser.FunctionDefinition") ==> asType(statements[i], "parser.FunctionDefinition").name != asType(statements[j], "parser.FunctionDefinition").name))
 //@   ensures[C09,C16] a-file-reached-along-several-import-paths-defines-its-functions-once: err == nil ==> forall(i, 0, len(result0), forall(j, 0, i, isType(result0[i], "parser.FunctionDefinition") && isType(result0[j], "parser.FunctionDefinition") ==> asType(result0[i], "parser.FunctionDefinition").name != asType(result0[j], "parser.FunctionDefinition").name))
 //@   loop @"range statementsTemp" invariant[C09] imported-top-level-code-kept: len(statements) >= specCountOther(statementsTemp, rangeindex + 1)
